@@ -71,6 +71,63 @@ fn twins(rep: &mut Report, rng: &mut Rng, _idx: u64) {
     }
 }
 
+/// Every string one edit away from a valid unit (a character dropped, doubled, two neighbours swapped, every proper
+/// prefix and suffix) that is not itself a unit of either parser.
+fn unit_neighbours() -> Vec<String> {
+    let valid: Vec<String> = SIZE_UNITS.iter().map(|u| u.0.to_owned()).chain(TIME_UNITS.iter().map(|u| u.0.to_owned())).collect();
+    let mut out: Vec<String> = vec![];
+    for u in &valid {
+        let c: Vec<char> = u.chars().collect();
+        for i in 0..c.len() {
+            let mut d = c.clone();
+            d.remove(i);
+            out.push(d.iter().collect());
+            let mut d = c.clone();
+            d.insert(i, c[i]);
+            out.push(d.iter().collect());
+            if i + 1 < c.len() {
+                let mut d = c.clone();
+                d.swap(i, i + 1);
+                out.push(d.iter().collect());
+            }
+            if i > 0 {
+                out.push(c[..i].iter().collect());
+                out.push(c[i..].iter().collect());
+            }
+        }
+    }
+    out.retain(|s| !s.is_empty() && !valid.iter().any(|v| v.eq_ignore_ascii_case(s)));
+    out.sort();
+    out.dedup();
+    out
+}
+
+/// Exhaustive: every neighbour of a valid unit, in three letter cases, with and without a blank, must be refused by both parsers.
+fn neighbours(rep: &mut Report, _rng: &mut Rng, idx: u64) {
+    let all = unit_neighbours();
+    let unit = &all[(idx as usize / 6) % all.len()];
+    let unit = match idx % 3 {
+        0 => unit.clone(),
+        1 => unit.to_ascii_uppercase(),
+        _ => unit.chars().enumerate().map(|(k, c)| if k % 2 == 0 { c.to_ascii_uppercase() } else { c }).collect(),
+    };
+    let literal = format!("7{}{}", if (idx / 3) % 2 == 0 { " " } else { "" }, unit);
+    rep.case(&format!("neighbour|{}", literal), true);
+    rep.count("units_one_edit_away_from_a_valid_one", 1);
+    let a = trap::catch(|| serde_json::from_str::<SizeTriggerConfig>(&format!("{{\"limit\": {}}}", serde_json::to_string(&literal).unwrap())).map(|v| format!("{:?}", v)));
+    match a {
+        Err(p) => rep.violation(&format!("C20:panic:size:{}", p.site()), json!({"literal": literal, "panic": p.message})),
+        Ok(Ok(v)) => rep.violation("C20:size:bad-literal-accepted:unit-one-edit-away", json!({"literal": literal, "got": v})),
+        Ok(Err(_)) => {}
+    }
+    let b = trap::catch(|| serde_json::from_str::<TimeTriggerInterval>(&serde_json::to_string(&literal).unwrap()).map(|v| format!("{:?}", v)));
+    match b {
+        Err(p) => rep.violation(&format!("C20:panic:interval:{}", p.site()), json!({"literal": literal, "panic": p.message})),
+        Ok(Ok(v)) => rep.violation("C20:interval:bad-literal-accepted:unit-one-edit-away", json!({"literal": literal, "got": v})),
+        Ok(Err(_)) => {}
+    }
+}
+
 fn mixed_case(s: &str, rng: &mut Rng) -> String {
     // ASCII case changes only: Unicode case mapping would turn look-alikes (U+017F, U+212A) into real units
     match rng.below(3) {
@@ -428,6 +485,7 @@ pub fn run(rep: &mut Report) {
     run_cases(rep, "size", n, size_case);
     run_cases(rep, "interval", n, interval_case);
     run_cases(rep, "twins", if rep.tier == "thorough" { 40_000 } else { 4_000 }, twins);
+    run_cases(rep, "neighbours", unit_neighbours().len() as u64 * 6, neighbours);
     run_cases(rep, "behaviour", if rep.tier == "thorough" { 400 } else { 40 }, behavioural);
     refresh_rate(rep);
     concurrent_literals(rep);
